@@ -69,6 +69,8 @@ inductive Ev where
   | send (v : Val)
   | chclose
   | rxclose
+  | wake
+  | register
   deriving DecidableEq, Repr, Inhabited
 
 /-- The effects of one method call, in order. -/
@@ -164,6 +166,11 @@ def sendResult (gone : Bool) : Except Unit Unit := if gone then Except.error () 
 def emitChClose : Out := [Ev.chclose]
 def emitRxClose : Out := [Ev.rxclose]
 def chanClosed (c : Chan) (gone : Bool) : Bool := c == Chan.closed || gone
+/-- an `AtomicWaker` (its content is the executor's business) -/
+structure Waker where
+  deriving DecidableEq, Repr
+def emitWake : Out := [Ev.wake]
+def emitRegister : Out := [Ev.register]
 /-- `result.expect(..)` / `result.unwrap()` -/
 def unwrapRes {ε α} (r : Except ε α) : Option α := match r with | Except.ok v => some v | Except.error _ => none
 
